@@ -912,6 +912,12 @@ func BulkTuples() [][][]float64 {
 						sc := func(p []float64) []float64 { return []float64{p[0] * 1e120, p[1] * 1e120, p[2]} }
 						out = append(out, [][]float64{sc(a), sc(b), sc(c), sc(d)})
 					}
+					if k%4 == 1 {
+						// third ordinates that are not set (NaN) in one of the two segments, or at one end
+						// of each: a function that fills in or interpolates a Z must do so in its result
+						nz := func(p []float64) []float64 { return []float64{p[0], p[1], math.NaN()} }
+						out = append(out, [][]float64{nz(a), nz(b), c, d}, [][]float64{a, b, nz(c), nz(d)}, [][]float64{nz(a), b, c, nz(d)})
+					}
 					k++
 				}
 			}
